@@ -70,22 +70,22 @@ pub fn tokenize<'a, 'b, 'c>(
 
     let last_byte_pos = source.char_indices().last();
     let additional_token = match last_byte_pos {
-        Some((byte_pos, _)) => match token_kind {
+        Some(_) => match token_kind {
             None => Some(Token {
                 value: &source[byte_start_pos..],
                 kind: TokenKind::Text,
                 start: start_pos,
                 byte_start: byte_start_pos,
                 end: current,
-                byte_end: byte_pos + 1,
+                byte_end: source.len(),
             }),
             _ => Some(Token {
-                value: &source[byte_start_pos..byte_pos + 1],
+                value: &source[byte_start_pos..],
                 kind: token_kind.unwrap(),
                 start: start_pos,
                 byte_start: byte_start_pos,
                 end: current,
-                byte_end: byte_pos + 1,
+                byte_end: source.len(),
             }),
         },
         None => None,
